@@ -14,7 +14,12 @@ func init() {
 			"(2) in Core.handleRequest / handleLoginRequest the failure edge of Register returns a nil response, the lease ID is attached only on the success edge, once the registerLease flag is true a non-nil response leaves only across the success edge of Register (the flag is cleared only on the KV-mount arms), inline-auth leases are revoked and refused, a login never returns a secret; " +
 			"(3) at every RegisterAuth call site (token creation in handleRequest, login in Core.RegisterAuth, wrapping token in wrapInCubbyhole) the failure edge revokes the fresh token before returning and returns no response; every failing exit of wrapInCubbyhole after the wrapping token exists revokes it; " +
 			"(4) RegisterAuth refuses non-root zero-TTL, batch, empty-token and '..' paths before persisting; " +
-			"(5) only the token store may return an auth block on an authenticated path; (6) errors of the lease persistence helpers are never dropped.",
+			"(5) only the token store may return an auth block on an authenticated path; (6) errors of the lease persistence helpers are never dropped; " +
+			"(8) persistEntry/deleteEntry return nil only across a successful Put/Delete on leaseView(le.namespace) keyed by le.LeaseID; " +
+			"(9) createIndexByToken returns nil only after its Put, removeIndexByToken deletes the same salted key in the same token-namespace view, and Register's rollback removes the index under the very variable handed to createIndexByToken; " +
+			"(10) in handleRequest a response with a secret leaves only across Register success, the tested registerLease flag or the sys/leases/renew prefix; " +
+			"(11) a service token created through auth/token/ is returned only across RegisterAuth success; " +
+			"(12) the persist flag handed to expiration.RegisterAuth is the flag the token was created with (login) or constant true (token creation, wrapping).",
 		NotDecided: "that the backend's revoke handler actually removes the secret; a crash between generation and registration (no code runs); atomicity of the individual storage writes.",
 		Run:        runC06,
 	})
@@ -316,4 +321,5 @@ func runC06(c *eng.Ctx, thorough bool) {
 		c.ErrChecked(s.Fn, s.Call)
 	}
 	c.Floor(nil, "calls of the lease persistence helpers", n, 8)
+	runC06Gaps2(c)
 }
